@@ -1,20 +1,20 @@
-(* ===== ShowR.v ===== *)
+(* ===== ShowR.v : cases for the replay model ===== *)
 From Coq Require Import List NArith ZArith QArith Qcanon Bool Arith.
 Import ListNotations.
 Require Import Mat ShowM Mat2.
 Open Scope N_scope.
 Inductive rexpect := RXOk (names : list str) (cols : list column) (drop : list nat) | RXErr (c : nat).
-Definition rcode (e : rerr) := match e with REval => 1 | RNull => 2 | RTooMany => 3 | RInsufficient => 4 | RInconsistent => 5 | ROther => 6 end%nat.
+Definition rcode (e : rerr) := match e with REval => 1 | RNull => 2 | RTooMany => 3 | RInsufficient => 4 | RInconsistent => 5 | ROther => 6 | RKind => 7 end%nat.
 Definition ragree (r : (list str * list column * list nat) + rerr) (x : rexpect) : nat :=
   match r, x with
   | inl (n, c, d), RXOk n' c' d' => if negb (nameseqb n n') then 1 else if negb (colseqb c c') then 2 else if negb (natseqb d d') then 3 else 0
   | inr e, RXErr k => if Nat.eqb (rcode e) k then 0 else 5
   | _, _ => 5
   end%nat.
-Definition mkst (fs : list (str * bool)) (sc : Qc) : sterm := {| st_f := map (fun p => {| sf_expr := fst p; sf_red := snd p |}) fs; st_scale := sc |}.
-Definition rcase := (spec * frame * nat * list nat * rexpect)%type.
-Fixpoint rchk (cs : list rcase) (i : nat) : nat * list (nat * nat) :=
+Definition mkst (fs : list (str * bool)) (sc : Qc) : sterm := {| st_f := fs; st_scale := sc |}.
+Record rcase := { r_spec : spec; r_frame : frame; r_nrows : nat; r_caller : list nat; r_expect : rexpect }.
+Definition rwhy (c : rcase) : nat := ragree (replay (r_spec c) (r_frame c) (r_nrows c) (r_caller c)) (r_expect c).
+Fixpoint chk_replay (cs : list rcase) (i : nat) : nat * list nat :=
   match cs with [] => (O, [])
-  | (sp, d, n, cd, x) :: r => let '(m, fl) := rchk r (S i) in
-      match ragree (replay sp d n cd) x with O => (m, fl) | k => (S m, (i, k) :: fl) end
+  | c :: r => let '(m, fl) := chk_replay r (S i) in match rwhy c with O => (m, fl) | _ => (S m, i :: fl) end
   end.
